@@ -37,6 +37,15 @@ theorem sgrOk_idx (w i : Nat) (hw : w = 38 ∨ w = 48) (hi : i ≤ 255) : SgrOk 
     rcases hw with rfl | rfl <;> simp [sgrParams, sgrParam, h3]
   · rcases hw with rfl | rfl <;> rfl
 
+theorem sgrOk_rgb (w r g b : Nat) (hw : w = 38 ∨ w = 48) (hr : r ≤ 255) (hg : g ≤ 255) (hb : b ≤ 255) :
+    SgrOk [[w, 2, r, g, b]] := by
+  constructor
+  · have h1 : (r : Int) ≤ 255 := by omega
+    have h2 : (g : Int) ≤ 255 := by omega
+    have h3 : (b : Int) ≤ 255 := by omega
+    rcases hw with rfl | rfl <;> simp [sgrParams, sgrParam, h1, h2, h3]
+  · rcases hw with rfl | rfl <;> rfl
+
 /-! ### the pieces of the pen delta -/
 
 variable (dec : String → G) (tw : String → Nat)
@@ -53,6 +62,49 @@ theorem effParams_shape (caps : Caps) (h : caps.rgb = false) (c : Nat) :
   · split
     · rename_i h1 h2; simp [h1, h2] at hl
     · exact Or.inl rfl
+
+/-- The colour parameters for ANY capability set: nothing, one palette index < 256, or three channels
+    < 256 (direct colour: only with `caps.rgb`, e.g. `COLORTERM=truecolor`). -/
+theorem effParams_shape3 (caps : Caps) (c : Nat) :
+    effParams caps c = [] ∨ (∃ i, i < 256 ∧ effParams caps c = [i]) ∨
+      ∃ r g b, r < 256 ∧ g < 256 ∧ b < 256 ∧ effParams caps c = [r, g, b] := by
+  have key : ∀ x, params x = [] ∨ (∃ i, i < 256 ∧ params x = [i]) ∨
+      ∃ r g b, r < 256 ∧ g < 256 ∧ b < 256 ∧ params x = [r, g, b] := by
+    intro x
+    unfold params
+    split
+    · exact Or.inr (Or.inl ⟨_, Nat.mod_lt _ (by decide), rfl⟩)
+    · split
+      · exact Or.inr (Or.inr ⟨_, _, _, Nat.mod_lt _ (by decide), Nat.mod_lt _ (by decide), Nat.mod_lt _ (by decide), rfl⟩)
+      · exact Or.inl rfl
+  unfold effParams
+  split
+  · exact key _
+  · exact key _
+
+theorem colorToksP_ok3 (which : Nat) (hw : which = 30 ∨ which = 40) (ps : List Nat)
+    (h : ps = [] ∨ (∃ i, i < 256 ∧ ps = [i]) ∨ ∃ r g b, r < 256 ∧ g < 256 ∧ b < 256 ∧ ps = [r, g, b]) :
+    ∀ k ∈ colorToksP which ps, TokOk dec tw k := by
+  intro k hk
+  rcases h with rfl | ⟨i, hi, rfl⟩ | ⟨r, g, b, hr, hg, hb, rfl⟩
+  · simp [colorToksP] at hk; subst hk
+    rcases hw with rfl | rfl <;> exact sgrOk_single _ (by omega) (by omega) (by omega) (by omega) (by omega) (by omega)
+  · simp only [colorToksP] at hk
+    split at hk
+    · simp at hk; subst hk
+      rcases hw with rfl | rfl <;> exact sgrOk_single _ (by omega) (by omega) (by omega) (by omega) (by omega) (by omega)
+    · split at hk
+      · simp at hk; subst hk
+        rcases hw with rfl | rfl <;> exact sgrOk_single _ (by omega) (by omega) (by omega) (by omega) (by omega) (by omega)
+      · simp at hk; subst hk
+        rcases hw with rfl | rfl
+        · exact sgrOk_idx 38 i (Or.inl rfl) (by omega)
+        · exact sgrOk_idx 48 i (Or.inr rfl) (by omega)
+  · simp only [colorToksP, List.mem_singleton] at hk
+    subst hk
+    rcases hw with rfl | rfl
+    · exact sgrOk_rgb 38 r g b (Or.inl rfl) (by omega) (by omega) (by omega)
+    · exact sgrOk_rgb 48 r g b (Or.inr rfl) (by omega) (by omega) (by omega)
 
 theorem colorToksP_ok (which : Nat) (hw : which = 30 ∨ which = 40) (ps : List Nat)
     (h : ps = [] ∨ ∃ i, i < 256 ∧ ps = [i]) : ∀ k ∈ colorToksP which ps, TokOk dec tw k := by
@@ -99,7 +151,7 @@ theorem attrToks_ok (a b : Nat) : ∀ k ∈ attrToks a b, TokOk dec tw k := by
   rw [List.all_eq_true] at hall
   exact isAttrTok_ok dec tw k (hall k hk)
 
-theorem penDelta_ok (caps : Caps) (hrgb : caps.rgb = false) (hsu : caps.styledUnderlines = false)
+theorem penDelta_ok (caps : Caps) (hsu : caps.styledUnderlines = false)
     (pen next : Style) (h0 : 59 ∉ dec "") (hlp : 59 ∉ dec next.linkParams) :
     ∀ k ∈ penDelta caps pen next, TokOk dec tw k := by
   intro k hk
@@ -107,10 +159,10 @@ theorem penDelta_ok (caps : Caps) (hrgb : caps.rgb = false) (hsu : caps.styledUn
   simp only [List.mem_append] at hk
   rcases hk with ((((h | h) | h) | h) | h) | h
   · split at h
-    · exact colorToksP_ok dec tw 30 (Or.inl rfl) _ (effParams_shape caps hrgb _) k h
+    · exact colorToksP_ok3 dec tw 30 (Or.inl rfl) _ (effParams_shape3 caps _) k h
     · simp at h
   · split at h
-    · exact colorToksP_ok dec tw 40 (Or.inr rfl) _ (effParams_shape caps hrgb _) k h
+    · exact colorToksP_ok3 dec tw 40 (Or.inr rfl) _ (effParams_shape3 caps _) k h
     · simp at h
   · split at h
     · rename_i hc; rw [hsu] at hc; simp at hc
@@ -150,7 +202,7 @@ theorem close_ok (h0 : 59 ∉ dec "") : TokOk dec tw (Tok.osc8 "" "") := ⟨h0, 
 
 /-! ### the cell loop -/
 
-theorem renderCells_ok (cw : String → Nat) (caps : Caps) (hrgb : caps.rgb = false) (hsu : caps.styledUnderlines = false)
+theorem renderCells_ok (cw : String → Nat) (caps : Caps) (hsu : caps.styledUnderlines = false)
     (hew : caps.explicitWidth = false) (hsp : cw "20" = 1) (hd : dec "20" ≠ []) (h0 : 59 ∉ dec "")
     (refresh : Bool) (row : Nat) :
     ∀ (next last : List Cell) (col skip : Nat) (track : Bool) (dirty : Nat) (st : RSt),
@@ -186,10 +238,10 @@ theorem renderCells_ok (cw : String → Nat) (caps : Caps) (hrgb : caps.rgb = fa
                   subst hk; exact close_ok dec cw h0
                 · subst hk; trivial
               · simp at hk
-            · exact penDelta_ok dec cw caps hrgb hsu _ _ h0 (hc n (by simp)).2.2 k hk
+            · exact penDelta_ok dec cw caps hsu _ _ h0 (hc n (by simp)).2.2 k hk
             · subst hk; exact glyphTok_ok dec cw caps hew n hsp hd (hc n (by simp))
 
-theorem renderRows_ok (cw : String → Nat) (caps : Caps) (hrgb : caps.rgb = false) (hsu : caps.styledUnderlines = false)
+theorem renderRows_ok (cw : String → Nat) (caps : Caps) (hsu : caps.styledUnderlines = false)
     (hew : caps.explicitWidth = false) (hsp : cw "20" = 1) (hd : dec "20" ≠ []) (h0 : 59 ∉ dec "")
     (refresh : Bool) :
     ∀ (next last : Grid) (row : Nat) (st : RSt),
@@ -206,7 +258,7 @@ theorem renderRows_ok (cw : String → Nat) (caps : Caps) (hrgb : caps.rgb = fal
     | cons l ls =>
       simp only [renderRows]
       apply ih _ _ _ (fun r hr => hc r (by simp [hr]))
-      exact renderCells_ok dec cw caps hrgb hsu hew hsp hd h0 refresh row n l 0 0 false 0 { st with reposition := true }
+      exact renderCells_ok dec cw caps hsu hew hsp hd h0 refresh row n l 0 0 false 0 { st with reposition := true }
         (hc n (by simp)) h
 
 /-! ### the frame -/
@@ -219,10 +271,10 @@ theorem showCursor_ok (c : CursorState) (hs : c.style ≤ 65535) : ∀ k ∈ sho
   · trivial
   · rfl
 
-/-- **Every token of a frame rendered under the emulator's capability set is covered by the
-    simulation**, for all grids whose cells are `CellOk` and every cursor request with a shape value
+/-- **Every token of a frame rendered under a capability set without styled underlines, explicit width
+    and synchronized output — with or without direct colour — is covered by the simulation**, for all grids whose cells are `CellOk` and every cursor request with a shape value
     ≤ 65535. -/
-theorem frame_ok (cw : String → Nat) (f : Frame) (hrgb : f.caps.rgb = false) (hsu : f.caps.styledUnderlines = false)
+theorem frame_ok_anyRgb (cw : String → Nat) (f : Frame) (hsu : f.caps.styledUnderlines = false)
     (hew : f.caps.explicitWidth = false) (hsy : f.caps.sync = false)
     (hsp : cw "20" = 1) (hd : dec "20" ≠ []) (h0 : 59 ∉ dec "")
     (hc : ∀ r ∈ f.next, ∀ c ∈ r, CellOk dec cw c) (hs : f.cursorNext.style ≤ 65535) :
@@ -232,7 +284,7 @@ theorem frame_ok (cw : String → Nat) (f : Frame) (hrgb : f.caps.rgb = false) (
     unfold renderBody at hk
     simp only [List.mem_append] at hk
     rcases hk with (hk | hk) | hk
-    · refine renderRows_ok dec cw f.caps hrgb hsu hew hsp hd h0 f.refresh f.next f.last 0 _ hc ?_ k hk
+    · refine renderRows_ok dec cw f.caps hsu hew hsp hd h0 f.refresh f.next f.last 0 _ hc ?_ k hk
       intro k' hk'
       simp only at hk'
       split at hk' <;> simp at hk'
@@ -261,5 +313,13 @@ theorem frame_ok (cw : String → Nat) (f : Frame) (hrgb : f.caps.rgb = false) (
       · exact showCursor_ok dec cw _ hs k hk
       · simp at hk
     · rw [hsy] at hk; simp at hk
+
+/-- The same with the round-2 signature (the capability set without direct colour). -/
+theorem frame_ok (cw : String → Nat) (f : Frame) (_hrgb : f.caps.rgb = false) (hsu : f.caps.styledUnderlines = false)
+    (hew : f.caps.explicitWidth = false) (hsy : f.caps.sync = false)
+    (hsp : cw "20" = 1) (hd : dec "20" ≠ []) (h0 : 59 ∉ dec "")
+    (hc : ∀ r ∈ f.next, ∀ c ∈ r, CellOk dec cw c) (hs : f.cursorNext.style ≤ 65535) :
+    ∀ k ∈ (renderFrame cw f).2, TokOk dec cw k :=
+  frame_ok_anyRgb dec cw f hsu hew hsy hsp hd h0 hc hs
 
 end VaxisModel.Lemmas.C12Vocab
